@@ -60,7 +60,16 @@ func main() {
 	src := flag.String("src", "/repo", "package directory")
 	out := flag.String("out", "", "output directory")
 	tags := flag.String("tags", "verif", "build tags (comma separated)")
+	consts := flag.String("const", "", "NAME=VALUE[,NAME=VALUE]: replace the literal value of package-level integer constants (abstraction knob, e.g. shards=4)")
 	flag.Parse()
+
+	constRepl := map[string]string{}
+
+	for _, kv := range strings.Split(*consts, ",") {
+		if k, v, ok := strings.Cut(kv, "="); ok {
+			constRepl[k] = v
+		}
+	}
 
 	if *out == "" {
 		fail("missing -out")
@@ -119,6 +128,26 @@ func main() {
 		rw := &rewriter{fset: fset, file: n, rangeChan: rangeChan, rangeMap: rangeMap}
 		rw.rewriteFile(f)
 
+		for _, d := range f.Decls {
+			gd, ok := d.(*ast.GenDecl)
+			if !ok || gd.Tok != token.CONST {
+				continue
+			}
+
+			for _, sp := range gd.Specs {
+				vs := sp.(*ast.ValueSpec)
+				for i, name := range vs.Names {
+					if v, ok := constRepl[name.Name]; ok && i < len(vs.Values) {
+						if lit, ok := vs.Values[i].(*ast.BasicLit); ok && lit.Kind == token.INT {
+							lit.Value = v
+							fmt.Printf("vinst: constant %s set to %s in %s\n", name.Name, v, n)
+							delete(constRepl, name.Name)
+						}
+					}
+				}
+			}
+		}
+
 		var buf bytes.Buffer
 		if err := format.Node(&buf, fset, f); err != nil {
 			fail("print %s: %v", n, err)
@@ -141,6 +170,10 @@ func main() {
 	js, _ := json.MarshalIndent(map[string]interface{}{"Replace": overlay}, "", " ")
 	if err := os.WriteFile(filepath.Join(*out, "overlay.json"), js, 0o644); err != nil {
 		fail("%v", err)
+	}
+
+	for k := range constRepl {
+		fmt.Printf("vinst: note: constant %s not found as an integer literal; left unchanged\n", k)
 	}
 
 	fmt.Printf("vinst: %d files instrumented into %s\n", len(names), *out)
